@@ -91,9 +91,12 @@ impl Int {
         let x = string
             .parse::<i128>()
             .map_err(|e| JsError::from_str(&format! {"{:?}", e}))?;
-        if x.unsigned_abs() > u64::MAX as u128 {
+        // the range of a CBOR integer: -2^64 ..= 2^64 - 1
+        const INT_MIN: i128 = -(1i128 << 64);
+        const INT_MAX: i128 = (1i128 << 64) - 1;
+        if x > INT_MAX || x < INT_MIN {
             return Err(JsError::from_str(&format!(
-                "{} out of bounds. Value (without sign) must fit within 4 bytes limit of {}",
+                "{} out of bounds. Value must be within the range of a CBOR integer, -2^64 ..= {}",
                 x,
                 u64::MAX
             )));
